@@ -48,6 +48,14 @@ def next_resolve_tasks():
     return [T(f"Ovld.{wh}[{na} arguments]", m.t_next_resolve(wh, na)) for wh in ("next", "resolve") for na in (0, 1, 2)]
 
 
+def built_flag_tasks():
+    return [T(f"Ovld.compile.built_flag[{'first_build' if fb else 'rebuild'}]", m.t_built_flag(fb)) for fb in (True, False)]
+
+
+def attr_copy_tasks():
+    return [T(f"Ovld.compile[{g},entry_point_without_defaults]", m.t_compile(g, empty_attrs=True)) for g in ("single", "child")]
+
+
 def lock_tasks():
     return [T("Ovld.compile.transitive_lock[chain3]", m.t_transitive_lock())]
 
